@@ -33,8 +33,12 @@ PROPERTIES = {}
 
 class PendingProperty(Pending):
     """Property with validation done when defining calculated values."""
+    def __init__(self, tokens, name, base_url=None):
+        super().__init__(tokens, name)
+        self.base_url = base_url
+
     def validate(self, tokens, wanted_key):
-        return validate_non_shorthand(tokens, self.name)[0][1]
+        return validate_non_shorthand(tokens, self.name, self.base_url)[0][1]
 
 
 # Validators
@@ -96,7 +100,7 @@ def validate_non_shorthand(tokens, name, base_url=None, required=False):
     for token in tokens:
         if check_var_function(token):
             # Found CSS variable, return pending-substitution values.
-            return ((name, PendingProperty(tokens, name)),)
+            return ((name, PendingProperty(tokens, name, base_url)),)
 
     keyword = get_single_keyword(tokens)
     if keyword in ('initial', 'inherit'):
